@@ -12,6 +12,8 @@ Decided:
  R3  HDF5File: every time-indexed dataset is appended by exactly one _appendData call; the record's
      time is written in the same branch as its eight per-record datasets; each dataset is fed from the
      accessor its path names; all axis indices feeding one axis dataset agree and match its unit;
+ R5  the stored position/length/mean energy/spread are computed by the moment formulas of C09/R2 on the axis
+     of their own profile (re-evaluated here);
  R4  cadence: records are written iff outstep>0 and step%outstep==0, the record counter advances once
      per output block, the stored time is step/steps, and the final block is reached on every path
      from the loop exit when a results file is open.
@@ -345,5 +347,13 @@ def run(chk, prog):
     chk.check(not fin_enc, "R4", A.loc(mainf, fb), "the final-record block is guarded by `hdf_file != nullptr` only", "main:final-block-guard")
     rets = [x for x in A.walk(mainf["body"]) if x["k"] == "ReturnStmt" and loop["line"] <= x["line"] < fb["line"]]
     chk.check(not rets, "R4", A.loc(mainf, fb), "no return between the loop and the final record", "main:return-before-final")
+    # ---- R5: the stored moments are the moments of the stored profiles (formulas decided under C09/R2) ------------
+    from . import C09 as c09
+    sub = type(chk)("C09", chk.tier)
+    c09.run(sub, prog)
+    r2 = [i for i in sub.instances if i["rule"] == "R2" and any(t in i["what"] for t in ("average", "variance", "rms", "filling[n]", "P[0]", "P[1]"))]
+    for i in r2:
+        chk.check(i["ok"], "R5", i["site"], "(C09/R2) " + i["what"].split("\n")[0][:200], "C09-R2:" + i.get("key", "ok"))
+    chk.floor("R5-moment-formulas", len(r2), 8)
     chk.notes.append("C10: freshness typestate at all append sites x %d invariant cases, block agreement, dataset/accessor/axis tables of HDF5File, cadence. "
                      "NOT decided: numerical equality of stored moments, absolute unit factors." % len(cases))
